@@ -804,6 +804,12 @@ hdf_xdr_NCvdata(NC *handle, NC_var *vp, unsigned long where, nc_type type, uint3
          */
         if (vp->data_ref == 0) {
             if (handle->hdf_mode == DFACC_RDONLY) {
+                /* nothing can be stored through a read-only file (and the caller's
+                   buffer holds the values to write, it must not be filled) */
+                if (handle->xdrs->x_op != XDR_DECODE) {
+                    ret_value = FAIL;
+                    goto done;
+                }
                 if (vp->data_tag == DATA_TAG || vp->data_tag == DFTAG_SDS) {
                     if ((attr = NC_findattr(&vp->attrs, _FillValue)) != NULL)
                         HDmemfill(values, (*attr)->data->values, vp->szof, count);
